@@ -3016,6 +3016,11 @@ int x509_access_method_from_der(int *oid, const uint8_t **in, size_t *inlen)
 		else *oid = -1;
 		return ret;
 	}
+	// an access method that is not in the table
+	if (!info) {
+		error_print();
+		return -1;
+	}
 	*oid = info->oid;
 	return 1;
 }
